@@ -132,6 +132,7 @@ type Replay struct {
 	Stream  *Case      `json:"stream,omitempty"`
 	Codec   *CodecCase `json:"codec,omitempty"`
 	History *HistCase  `json:"history,omitempty"`
+	Pool    *PoolCase  `json:"pool,omitempty"`
 }
 
 const (
@@ -1627,6 +1628,8 @@ func TestReplay(t *testing.T) {
 		checkCodec(t, *r.Codec)
 	case r.History != nil:
 		checkHistory(t, *r.History)
+	case r.Pool != nil:
+		checkPool(t, *r.Pool)
 	default:
 		t.Fatalf("replay file has neither a stream nor a codec case")
 	}
